@@ -152,7 +152,7 @@ func raceChild(d time.Duration) error {
 		spawn(func() {
 			mu.Lock()
 			i := r.intn(40)
-			pkt := mdnsPacket(fmt.Sprintf("Dev%d.local", i), net.IP{10, 0, 0, byte(r.intn(4))}, false, r)
+			pkt := mdnsPacket(fmt.Sprintf("Dev%d.local", i), []net.IP{{10, 0, 0, byte(r.intn(4))}}, false, r)
 			mu.Unlock()
 			_, _ = cl.Write(pkt)
 			time.Sleep(50 * time.Microsecond)
